@@ -11,6 +11,7 @@ import (
 	"encoding/json"
 	"flag"
 	"fmt"
+	"os"
 	"path/filepath"
 	"sort"
 	"strings"
@@ -515,6 +516,10 @@ func main() {
 	for i := 0; i < 32; i++ {
 		x.roots <- filepath.Join(r.Scratch, fmt.Sprintf("root%d", i), "p")
 	}
+	if r.ReplayIn != "" {
+		x.replay()
+		return
+	}
 	if *fProp == "C03" {
 		crashMain(r, x)
 		return
@@ -567,4 +572,35 @@ func main() {
 		Outcomes:           r.NumOutcomes("executed_sets"),
 		Bounds:             map[string]any{"depth": r.GetMax("depth_completed"), "operations": len(ops)},
 	})
+}
+
+// replay re-runs a recorded history (free-running builds; crash steps cannot be re-run outside
+// the crash mode and end the replay with the recorded tree instead).
+func (x *searcher) replay() {
+	var rf replayFile
+	x.r.LoadReplay(&rf)
+	byName := map[string]Op{}
+	for _, o := range append(edits(), builds()...) {
+		byName[o.Name] = o
+	}
+	s := &State{V: initialVars(), Art: map[string]string{}, M: newModel()}
+	for i, name := range rf.History {
+		op, ok := byName[name]
+		if !ok {
+			fmt.Printf("step %d %q is not a plain operation (crash point or explored schedule): the tree before the last operation is in the replay file under tree_before_last_operation\n", i, name)
+			os.Exit(0)
+		}
+		ns := x.step(s, op)
+		if len(ns) != 1 {
+			fmt.Printf("step %d %s: not applicable\n", i, name)
+			os.Exit(0)
+		}
+		s = ns[0]
+		fmt.Printf("step %d %s: ok\n", i, name)
+	}
+	if x.r.NumViolations() == 0 {
+		fmt.Println("observed: no violation on this tree")
+		os.Exit(0)
+	}
+	x.r.Finish(vlib.Coverage{Evaluations: x.nTrans.Load(), DistinctNontrivial: 2, States: 1, Transitions: 1, Rule: "replay"})
 }
